@@ -332,6 +332,20 @@ func (g *genState) httpVariants(method, path string) {
 			}
 			h.PathS = o
 			return 1, keys
+		}, func(h *HTTP) (int, []string) {
+			// the first parameter is restricted by a declared enum
+			o := Obj()
+			var keys []string
+			for i, q := range pp {
+				keys = append(keys, "piece:"+q.prefix+":"+q.name)
+				if i == 0 {
+					o.P = append(o.P, P(q.name, Str("a").Enum("@E1")))
+				} else {
+					o.P = append(o.P, P(q.name, Str("s")))
+				}
+			}
+			h.PathS = o
+			return 1, keys
 		}})
 	}
 	qs := []alt{nil}
